@@ -7,7 +7,8 @@ CFG = {
                           "RpmVerif.C13.vectors_ok", "RpmVerif.C13.chars_vs_bytes",
                           "RpmVerif.C13.libsolv_vectors_ok", "RpmVerif.C13.libsolv_evr_vectors_ok",
                           "RpmVerif.C13.evr_partial_cmp", "RpmVerif.C13.nevra_partial_cmp", "RpmVerif.C13.evr_ops", "RpmVerif.C13.nevra_ops",
-                          "RpmVerif.C13.evr_max_spec", "RpmVerif.C13.nevra_max_spec", "RpmVerif.C13.rpmEvrCompare_spec", "RpmVerif.C13.evrText_iff"],
+                          "RpmVerif.C13.evr_max_spec", "RpmVerif.C13.nevra_max_spec", "RpmVerif.C13.rpmEvrCompare_spec", "RpmVerif.C13.evrText_iff",
+                          "RpmVerif.C13.epoch_numeric", "RpmVerif.C13.evr_cmp_numeric_epoch"],
     "trivial_branches": ["identical"],
     "rule": "exhaustive ordered pairs of all strings up to length 3 over the alphabet {0,1,9,a,B,'.','-','_','~','^','é'} and of all strings up to "
             "length 2 over that alphabet widened by U+0663, U+00B2, U+FF11, U+FF21, U+20AC, U+1D11E, U+0301 and the ASCII neighbours / : @ [ ` { of the "
@@ -23,7 +24,8 @@ CFG = {
                                     "<, <=, >, >= are core::cmp::PartialOrd's provided methods over partial_cmp and max / min core::cmp::Ord's provided "
                                     "methods (`if other < self`): modelled in Model/Vercmp.lean, exercised on every EVR / NEVRA case"],
     "level_text": "Theorems for all strings of any length: compare_version_string = rpmvercmp (rust_eq_c), reflexive / swap-antisymmetric / transitive, "
-                  "Evr and Nevra orders are the lexicographic products (epoch '' = '0'), equal values compare Equal; partial_cmp is total and is that order, "
+                  "Evr and Nevra orders are the lexicographic products (epoch '' = '0'; for all-digit epochs the epoch stage is the comparison of the NUMBERS, "
+                  "epoch_numeric), equal values compare Equal; partial_cmp is total and is that order, "
                   "<, <=, >, >= say what cmp says, max / min return a bound among their arguments; rpm_evr_compare reads each text as epoch (before the first ':'), "
                   "version (to the first '-'), release and compares those. The model is tied to the code by an exhaustive "
                   "small-alphabet differential run plus seeded long strings.",
